@@ -135,6 +135,7 @@ pub fn check(id: &str, tier: Tier) -> i32 {
   }
   if id == "C08" {
     c08_reopened(&run);
+    crate::props_sched::c08_concurrent(&run, thorough);
   }
   run.set("passes", json!(passes));
   run.set("bounds", json!({"max_live_handles": MAX_SLOTS, "alphabet": spec.alphabet.iter().map(|o| o.short()).collect::<Vec<_>>(), "starts": all_starts.iter().map(|s| s.name.clone()).collect::<Vec<_>>()}));
